@@ -170,7 +170,7 @@ func (g *Gen) CallProgram() *Chunk {
 				default:
 					body.Stmts = append(body.Stmts, Assign1(N(ls[ti]), CallN("select", Num(1), dots)), Assign1(N(ls[ti]), Bin("or", dots, Str("none"))))
 				}
-				ev = append(ev, N(ls[0]), N(ls[1]), N(ls[2]), N(ls[3]))
+				ev = append(ev, N(ls[0]), N(ls[1]), N(ls[2]), N(ls[3]), CallN("type", N("arg")))
 				g.cover("callee:dots-into-existing-locals")
 			case 0:
 				ev = append(ev, CallN("select", Str("#"), &EVararg{}), &EVararg{})
